@@ -146,6 +146,7 @@ type ccaller struct {
 	done    chan struct{}
 	err     error
 	n       int
+	arr0    int // arrivals of this caller at the RoundTripper gate before its current call
 }
 
 type CliRun struct {
@@ -403,6 +404,7 @@ func (r *CliRun) startCallNoWait(k int, timeoutSoon bool) int {
 	c.running = true
 	c.n++
 	c.done = make(chan struct{})
+	c.arr0 = r.rt.callGate.arrivedCount(key(k))
 	if timeoutSoon {
 		r.c.DialTimeout = 60 * time.Millisecond
 	} else {
@@ -428,6 +430,11 @@ func (r *CliRun) startCallNoWait(k int, timeoutSoon bool) int {
 		case "go":
 			call := r.c.Go("S.M", nil, nil, make(chan *rpc.Call, 1))
 			<-call.Done
+			err = call.Error
+		case "gonil":
+			// Go with a nil done channel ("Go will allocate a new channel"): the returned call must be signalled on it
+			call := r.c.Go("S.M", nil, nil, nil)
+			<-call.Done // (a nil Done blocks forever: the run then ends with this caller still blocked, which is reported)
 			err = call.Error
 		case "rt":
 			call := &rpc.Call{ServiceMethod: "S.M", Done: make(chan *rpc.Call, 1)}
@@ -561,7 +568,11 @@ func (r *CliRun) exec(st CStep, next []CStep) {
 			})
 		}
 	case "CallDone":
-		if r.rt.callGate.arrivedCount(key(st.K)) > 0 {
+		// the routing decision has been taken; the call reaches the RoundTripper a moment later (or returns without it)
+		if c := r.callers[st.K]; c != nil {
+			r.await("call at the RoundTripper", 300, func() bool { return r.finished(st.K) || r.rt.callGate.arrivedCount(key(st.K)) > c.arr0 })
+		}
+		if c := r.callers[st.K]; c != nil && r.rt.callGate.arrivedCount(key(st.K)) > c.arr0 {
 			r.rt.callGate.release(key(st.K), 0)
 		}
 		r.await("CallDone", r.waitMs, func() bool { return r.finished(st.K) })
